@@ -16,6 +16,28 @@ Theorem C12_replies : forall cap s l s', replies_ok s -> sstep Guarded cap s l =
 Proof. exact replies_step. Qed.
 Print Assumptions C12_replies.
 
+(* No call is left hanging by the handlers themselves: every action of a close or data call uses up
+   part of a finite budget (so, in any interleaving, the calls together take at most `work` actions),
+   and a call that has not been answered can always take its next action - except when it has to put
+   a message into a full queue whose writer is still running, and then the writer can take a message
+   (or, once the backend is gone, the call proceeds and is answered).  What is NOT covered: the
+   writer goroutine itself blocked on a backend that neither reads nor closes. *)
+Theorem C12_bounded_work : forall cap ls s s', GInv s -> srun Guarded cap s ls = Some s' ->
+  length (filter is_step ls) + work s' <= work s.
+Proof. exact guarded_steps_bounded. Qed.
+Print Assumptions C12_bounded_work.
+
+Theorem C12_progress : forall cap s t p, GInv s -> 1 <= cap -> tget t (threads s) = Some p -> (forall st, p <> Replied st) ->
+  sstep Guarded cap s (Step t) <> None \/
+  (done s = false /\ cap <= qlen s /\ sstep Guarded cap s WriterPop <> None).
+Proof. exact guarded_progress. Qed.
+Print Assumptions C12_progress.
+
+Theorem C12_progress_when_backend_gone : forall cap s t p, GInv s -> done s = true -> tget t (threads s) = Some p ->
+  (forall st, p <> Replied st) -> sstep Guarded cap s (Step t) <> None.
+Proof. exact guarded_progress_when_done. Qed.
+Print Assumptions C12_progress_when_backend_gone.
+
 (* sharpness = the defects repaired in the source (unguarded Close / Send): *)
 (* two close calls for the same session: the second one sends on the closed channel *)
 Theorem C12_sharp_double_close :
